@@ -3,6 +3,7 @@ package trzsz
 import (
 	"bytes"
 	"fmt"
+	"math/rand"
 	"os"
 	"path/filepath"
 	"strings"
@@ -164,6 +165,24 @@ func vScenarioC04(rc *runCtx) {
 		vWriteFile(p, data)
 		paths = append(paths, p)
 	}
+	// one acknowledgement may be seconds late: the sender then makes its chunks smaller and cuts what it had
+	// already escaped into pieces - anywhere, between a leader and its code included
+	lateAck := !badCode && cfg.upload && mode == "builtin" && cfg.protocol != 1 && tp.Bool("c04.lateack", 150)
+	if lateAck {
+		hot := []byte{0xee, 0x7e, 0xee, 0x0d, 0xee, 0x11}
+		data := make([]byte, 150000+tp.Draw("c04.latesize", 150000))
+		r := rand.New(rand.NewSource(int64(tp.Draw("c04.lateseed", 1<<30))))
+		for j := range data {
+			data[j] = hot[r.Intn(len(hot))]
+			if r.Intn(3) == 0 {
+				data[j] = byte(r.Intn(256))
+			}
+		}
+		p := filepath.Join(src, "late-ack.bin")
+		vWriteFile(p, data)
+		paths = append([]string{p}, paths...)
+		cfg.compress = "no"
+	}
 	o := cfg.opts()
 	o.srcPaths = paths
 	o.dstDir = dst
@@ -181,6 +200,9 @@ func vScenarioC04(rc *runCtx) {
 		o.serverMain = func() int { return vCustomTrz(chars) }
 	}
 	x := newXferWorld(rc, o)
+	if lateAck {
+		vLateAck(rc, x, vArmAfterCfg(x), 6+tp.Draw("c04.lateat", 24), time.Duration(2200+tp.Draw("c04.latefor", 1500))*time.Millisecond, nil)
+	}
 	// targeted fault: an escape pair the table does not define
 	dataLink := x.up[0]
 	if !cfg.upload {
